@@ -17,6 +17,7 @@ pub struct C17;
 
 pub const GATE_DYN_INSTANCE: &str = "dyn:generic-instance";
 pub const GATE_DYN_INT_LITERAL: &str = "dyn:int-literal";
+pub const GATE_DYN_STRUCT_LITERAL: &str = "dyn:struct-literal";
 pub const GATE_DYN_FROM_CALL: &str = "dyn:from-call";
 pub const GATE_INHERENT_INSTANCE_UFCS: &str = "inherent:instance-ufcs";
 
@@ -919,6 +920,12 @@ fn render_program(m: &Model, g: &mut Gen, hz: &str, mode: Mode) -> (Prog, Option
                             emit(&mut p, "dd", format!("{dk}(dx{vi}_{tid}{al})"));
                         }
                     }
+                    if matches!(m.recvs[rc].kind, RK::Struct(_) | RK::Enum(_)) && hz == "dyn-struct-lit" && g.d.chance(160) {
+                        // a struct literal / constructor application itself where a dyn is expected
+                        planted = true;
+                        p.helpers.insert(dk.clone(), dfn.clone());
+                        emit(&mut p, "dp-lit", format!("{dk}({}{al})", render_value(m, rc, v)));
+                    }
                     if is_prim && g.d.chance(110) && (!is_int_prim || hz == "dyn-int-lit") {
                         planted |= is_int_prim;
                         // the literal itself where a dyn is expected
@@ -1365,9 +1372,9 @@ impl Check for C17 {
         };
         let mut g = Gen { d: &mut d, labels: BTreeSet::new() };
         // at most one shape of an open known finding per program
-        let hazards = ["none", "dyn-instance", "dyn-int-lit", "dyn-from-call", "inst-ufcs"];
-        let gates = ["", GATE_DYN_INSTANCE, GATE_DYN_INT_LITERAL, GATE_DYN_FROM_CALL, GATE_INHERENT_INSTANCE_UFCS];
-        let k = g.d.weighted(&[6, 2, 1, 2, 1]);
+        let hazards = ["none", "dyn-instance", "dyn-int-lit", "dyn-from-call", "inst-ufcs", "dyn-struct-lit"];
+        let gates = ["", GATE_DYN_INSTANCE, GATE_DYN_INT_LITERAL, GATE_DYN_FROM_CALL, GATE_INHERENT_INSTANCE_UFCS, GATE_DYN_STRUCT_LITERAL];
+        let k = g.d.weighted(&[6, 2, 1, 2, 1, 1]);
         let mut hz = hazards[k];
         if k > 0 && ctx.gated(gates[k]) {
             hz = "none";
